@@ -44,8 +44,8 @@ class Snapshot:
             lst = getattr(obj, "_list", None)
             content = {
                 "list": [self._walk(x) for x in lst] if lst is not None else None,
-                "dict": [(self._walk(k), self._walk(v)) for k, v in obj._dict.items()] if lst is None else sorted(
-                    ((repr(k), self._walk(v)) for k, v in obj._dict.items()), key=lambda kv: kv[0]),
+                # neither the key index of a KeyedList nor a KeyedSet has an observable order
+                "dict": sorted(((repr(k), self._walk(v)) for k, v in obj._dict.items()), key=lambda kv: kv[0]),
             }
             self.nodes[oid] = (type(obj).__name__, content)
         elif isinstance(obj, list):
